@@ -91,6 +91,10 @@ def compare(rec, clause, name_a, name_b, spec_a, spec_b, table, va, vb, info, re
         rec.case(key, None, outcome=(clause, name_a, sum(pat), ok))
         rec.evals += len(gs) - 1
     rec.count('value_vectors_compared', len(table.groups))
+    if not rec.samples and len(table.groups) > 2:
+        g = min(2, len(table.groups) - 1)
+        rec.sample(dict(clause=clause, a=name_a, b=name_b, structure=info, group=table.describe_group(g),
+                        value_a=[float(v) for v in va[g]], value_b=[float(v) for v in vb[g]]))
     for g in np.nonzero(rows_bad)[0][:1]:
         grp = table.describe_group(int(g))
         key = f'{ID}|{clause}|{name_a}~{name_b}|{info["shape"].split(",")[0]}'
@@ -334,6 +338,11 @@ def check_generating(alph, alts, alone, nests, mus, table, rec, syntax='obj', av
                               f'(alone={list(alone)} nests={[list(n) for n in nests]} mus={list(mus)}, nests as {syntax})',
                               dict(case, alt=a), expected=t, observed=lg)
         per_pat_ok.setdefault(pi, []).append(ok)
+        if not rec.samples and interesting and sum(pat) >= 2:
+            rec.sample(dict(clause='generating function', structure=info, V={str(a): V[a] for a in alts}, availability=list(pat),
+                            G_engine=float(Gv[g]), G_closed_form=Gref, dG_dV_engine=[float(x) for x in grad[g]],
+                            published_terms=[float(x) for x in T[g]],
+                            reference_ln_Gi={str(a): math.log(v) for a, v in Giref.items()}))
     for pi, oks in per_pat_ok.items():
         pat = table.pats[pi]
         nt = interesting and sum(pat) >= 1
